@@ -294,3 +294,28 @@ def m_sum(ex, st, args, kwargs, node):
             st.assume(s >= Z(a.shape[0]))
         return s
     raise Unsupported('np.sum pattern')
+
+
+@model('np.tensordot')
+def m_tensordot(ex, st, args, kwargs, node):
+    """np.tensordot(A, B, 1): contraction of the last axis of A with the first axis of B (shape level)."""
+    a, b = st.deref(args[0]), st.deref(args[1])
+    axes = args[2] if len(args) > 2 else kwargs.get('axes', 2)
+    if isinstance(a, VOpaque) or isinstance(b, VOpaque):
+        if ex.lenient:
+            return VOpaque('tensordot')
+        raise Unsupported('tensordot of an uninterpreted value')
+    if not (isinstance(axes, int) and axes == 1 and isinstance(a, VArr) and isinstance(b, VArr) and a.ndim >= 1 and b.ndim >= 1):
+        raise Unsupported(f'tensordot pattern at line {node.lineno}')
+    used('np.tensordot(A, B, 1) -> shape A.shape[:-1] + B.shape[1:], contracted dimensions must agree')
+    ex.oblige(st, 'call-pre', 'tensordot-contracted-dims-agree', Z(a.shape[-1]) == Z(b.shape[0]), node)
+    shp = tuple(a.shape[:-1]) + tuple(b.shape[1:])
+    if len(shp) == 3:
+        t = ex.fresh('td', T.Core)
+        st.assume(T.d0(t) == Z(shp[0]), T.d1(t) == Z(shp[1]), T.d2(t) == Z(shp[2]))
+        return M.mk_core(t)
+    if len(shp) == 2:
+        t = ex.fresh('td', T.Mat)
+        st.assume(T.rows(t) == Z(shp[0]), T.cols(t) == Z(shp[1]))
+        return M.mk_mat(t)
+    return VArr(shp, None, None)
